@@ -33,8 +33,7 @@ def _render_nodes(nodes):
 
 def render(tree):
     s = _render_nodes(tree["nodes"])
-    if tree.get("hydrate"):
-        k, nodes = tree["hydrate"]
+    for k, nodes in tree.get("adducts", ([tree["hydrate"]] if tree.get("hydrate") else [])):
         s += ".." + (str(k) if k != 1 else "") + _render_nodes(nodes)
     c = tree.get("charge", 0)
     if c:
@@ -55,8 +54,7 @@ def _nodes_comp(nodes, mult, acc):
 def tree_composition(tree):
     acc = {}
     _nodes_comp(tree["nodes"], 1, acc)
-    if tree.get("hydrate"):
-        k, nodes = tree["hydrate"]
+    for k, nodes in tree.get("adducts", ([tree["hydrate"]] if tree.get("hydrate") else [])):
         _nodes_comp(nodes, k, acc)
     if tree.get("charge", 0):
         acc[0] = tree["charge"]
@@ -70,7 +68,7 @@ def tree_for(comp, rng, elements_by_z):
     rest = {z: n for z, n in comp.items() if z != 0 and n}
     hydrate = None
     # hydrate: pull out k*H2O
-    if rest.get(1, 0) >= 2 and rest.get(8, 0) >= 1 and rng.random() < 0.4:
+    if rest.get(1, 0) >= 2 and rest.get(8, 0) >= 1 and rng.random() < 0.65:
         kmax = min(rest[1] // 2, rest[8])
         k = rng.randint(1, kmax)
         rest[1] -= 2 * k
@@ -80,13 +78,33 @@ def tree_for(comp, rng, elements_by_z):
             rest[8] += k
         else:
             hydrate = (k, [("el", "H", 2), ("el", "O", 1)])
+    adducts = [hydrate] if hydrate else []
+    # a second adduct (ammonia or more water), written before or after the first, with or without a count
+    if hydrate and rng.random() < 0.8:
+        if rest.get(7, 0) >= 1 and rest.get(1, 0) >= 3 and len([z for z, n in rest.items() if n]) > 2:
+            k2 = rng.randint(1, min(rest[7], rest[1] // 3))
+            trial = dict(rest)
+            trial[7] -= k2
+            trial[1] -= 3 * k2
+            if any(v for v in trial.values()):
+                rest = trial
+                adducts.insert(rng.randint(0, 1), (k2, [("el", "N", 1), ("el", "H", 3)]))
+        elif hydrate[0] >= 2:
+            k1 = rng.randint(1, hydrate[0] - 1)
+            adducts = [(k1, hydrate[1]), (hydrate[0] - k1, hydrate[1])]
+            rng.shuffle(adducts)
     rest = {z: n for z, n in rest.items() if n}
     nodes = _nodes_for(rest, rng, elements_by_z, depth=0)
     tree = {"nodes": nodes, "charge": charge}
-    if hydrate:
-        tree["hydrate"] = hydrate
-    if rng.random() < 0.15:
+    if adducts:
+        tree["adducts"] = adducts
+    if rng.random() < 0.25:
         tree["phase"] = rng.choice(PHASES)
+        # put a bare element symbol right in front of the phase suffix now and then (Cs(s), Hg(g), Na(aq) ...)
+        last = [i for i, n in enumerate(nodes) if n[0] == "el" and n[2] == 1]
+        if last and not adducts and not charge and rng.random() < 0.6:
+            i = rng.choice(last)
+            nodes.append(nodes.pop(i))
     return tree
 
 
